@@ -35,6 +35,9 @@ SANI_POOL = ['w 0', 'w 1', 'a b', 'x-y', 'p.q', 'd[3]', '1st', "q'x", 'wire', 'r
              'h~', 'not', 'or', 'and', 'xor', 'signed', 'time', 'w 00', 'w 01']
 ZERO_FAMILIES = [['x1', 'x01', 'x001'], ['y2', 'y02'], ['n0', 'n00', 'n000'], ['a1b2', 'a01b2', 'a1b02'],
                  ['k7', 'k07', 'k007', 'k0007'], ['z_3', 'z_03'], ['v10', 'v010']]
+# names differing only in letter case, and in case + leading zeros (a case-insensitive key would tie them)
+CASE_FAMILIES = [['data', 'DATA', 'Data'], ['q1', 'Q1', 'q01', 'Q01'], ['sel', 'SEL'], ['bus_7', 'BUS_7', 'Bus_07'],
+                 ['ack', 'Ack', 'ACK', 'aCK'], ['r2d2', 'R2D2', 'r02d2']]
 PLAIN_POOL = ['alpha', 'beta2', 'beta10', 'g_1', 'g_2', 'g_11', 'sum', 'carry', 'state', 'nxt', 'Data9', 'data10',
               'acc', 'acc_1', 'q', 'p3', 'p20', 'p100', 'sel', 'en', 'we', 'addr', 'din', 'dout', '_u', 'u$1',
               'A', 'a', 'B7', 'b70x']
@@ -109,8 +112,105 @@ def allocation_noise(noise, salt):
 
 # ------------------------------------------------------------------ design construction
 
+def gen_blif(rng):
+    """a small BLIF model: 2-3 multi-bit input vectors (+ scalars), vector and scalar outputs, gates as
+    single-output covers, latches with init values; some vector names differ only in letter case"""
+    vec_names = rng.sample(['a', 'b', 'din', 'data', 'DATA', 'op', 'Op', 'v10', 'v9', 'x01', 'x1'], rng.randint(2, 3))
+    ins = []
+    for v in vec_names:
+        ins += ['%s[%d]' % (v, i) for i in range(rng.randint(2, 4))]
+    scal = rng.sample(['en', 'c', 'go', 'EN'], rng.randint(0, 2))
+    ins += scal
+    lines = ['.model top']
+    pool = list(ins)
+    nl = rng.randint(0, 3)
+    lat_q = ['q[%d]' % i for i in range(nl)] if nl != 1 else ['q']
+    pool += lat_q
+    body = ['.names $false', '.names $true', '1']
+    covers = {1: [['0 1'], ['1 1']], 2: [['11 1'], ['1- 1', '-1 1'], ['10 1', '01 1'], ['00 1'], ['0- 1', '-0 1']],
+              3: [['1-0 1', '-11 1'], ['111 1'], ['1-- 1', '-1- 1', '--1 1'], ['100 1', '010 1', '001 1', '111 1']]}
+    gates = []
+    for g in range(rng.randint(4, 14)):
+        k = rng.choice([1, 2, 2, 2, 3])
+        args = [rng.choice(pool) for _ in range(k)]
+        nm_ = 'n%d' % g
+        body.append('.names %s %s' % (' '.join(args), nm_))
+        body += rng.choice(covers[k])
+        pool.append(nm_)
+        gates.append(nm_)
+    out_vecs = rng.sample(['y', 'res', 'Res', 'out7', 'out07'], rng.randint(1, 2))
+    outs = []
+    for v in out_vecs:
+        outs += ['%s[%d]' % (v, i) for i in range(rng.randint(2, 3))]
+    outs += rng.sample(['z', 'ok'], rng.randint(0, 1))
+    for o in outs:
+        body.append('.names %s %s' % (rng.choice(gates + ins), o))
+        body.append('1 1')
+    for q in lat_q:
+        init = rng.choice(['0', '1', '2', '3', ''])
+        body.append(('.latch %s %s re clk %s' % (rng.choice(gates), q, init)).rstrip())
+    lines.append('.inputs clk ' + ' '.join(ins))
+    lines.append('.outputs ' + ' '.join(outs + lat_q))
+    return '\n'.join(lines + body + ['.end', ''])
+
+
+def gen_bench(rng):
+    """a small ISCAS .bench netlist with numeric and alphanumeric signal names and DFFs"""
+    numeric = rng.random() < 0.5
+    def nm_(i):
+        return str(i) if numeric else 'G%d' % i
+    n_in = rng.randint(3, 6)
+    sigs = [nm_(i) for i in range(1, n_in + 1)]
+    lines = ['# generated', ''] + ['INPUT(%s)' % x for x in sigs]
+    defs = []
+    cur = n_in + 1
+    for g in range(rng.randint(4, 12)):
+        op = rng.choice(['AND', 'OR', 'NOR', 'XOR', 'NOT', 'BUFF', 'DFF'])   # NAND -> 'n' nets, which Verilog export rejects
+        k = 1 if op in ('NOT', 'BUFF', 'DFF') else 2
+        args = [rng.choice(sigs) for _ in range(k)]
+        name = nm_(cur * rng.choice([1, 1, 3]))
+        while name in sigs:
+            cur += 1
+            name = nm_(cur)
+        cur += 1
+        defs.append('%s = %s(%s)' % (name, op, ', '.join(args)))
+        sigs.append(name)
+    outs = rng.sample(sigs[n_in:], min(len(sigs) - n_in, rng.randint(1, 3)))
+    lines += ['OUTPUT(%s)' % x for x in outs] + [''] + defs + ['']
+    return '\n'.join(lines)
+
+
+def build_imported(spec, noise):
+    """design built by an IMPORTER (input_from_blif / input_from_iscas_bench) instead of the construction API"""
+    allocation_noise(noise, spec['seed'])
+    rng = random.Random(spec['seed'])
+    pyrtl.reset_working_block()
+    block = pyrtl.working_block()
+    if spec['cls'] == 'blif':
+        text = gen_blif(rng)
+        pyrtl.input_from_blif(text, merge_io_vectors=(rng.random() < 0.8))
+    else:
+        text = gen_bench(rng)
+        pyrtl.input_from_iscas_bench(text)
+    block.sanity_check()
+    d = gen_designs.Design(block)
+    d.inputs = sorted(block.wirevector_subset(pyrtl.Input), key=lambda w: w.name)
+    d.outputs = sorted(block.wirevector_subset(pyrtl.Output), key=lambda w: w.name)
+    d.regs = sorted(block.wirevector_subset(pyrtl.Register), key=lambda w: w.name)
+    d.source_text = text
+    ncycles = rng.randint(3, 6)
+    inputs = [{w.name: gen_designs.boundary_value(rng, len(w)) for w in d.inputs} for _ in range(ncycles)]
+    opts = {'track_all': rng.random() < 0.5,
+            'add_reset': rng.choice([True, True, False, 'asynchronous']),
+            'base': rng.choice([2, 8, 10, 16]), 'compact': rng.random() < 0.3,
+            'include_clock': rng.random() < 0.3}
+    return d, ({}, {}, inputs), opts
+
+
 def build(spec, noise):
     """-> (design, tracked_mode, stimulus) ; deterministic in spec['seed'] only"""
+    if spec['cls'] in ('blif', 'iscas'):
+        return build_imported(spec, noise)
     allocation_noise(noise, spec['seed'])
     rng = random.Random(spec['seed'])
     cls = spec['cls']
@@ -156,6 +256,20 @@ def build(spec, noise):
                 w.name = nm
                 for lst in (free_named, free_inner):
                     lst[:] = [x for x in lst if x is not w]
+    if cls == 'case':
+        # whole families spread over wires of ANY kind (print_trace / print_vcd sort all traced names
+        # together; the Verilog lists sort per kind), at least one family inside one kind
+        pool_w = [w for w in named + inner]
+        for fam in rng.sample(CASE_FAMILIES, rng.randint(2, 4)):
+            if len(pool_w) < 2:
+                break
+            n = min(len(fam), len(pool_w))
+            same_kind = [w for w in pool_w if type(w) is type(pool_w[0])]
+            src = same_kind if (len(same_kind) >= n and rng.random() < 0.5) else pool_w
+            chosen = rng.sample(src, n)
+            for w, nm_ in zip(chosen, rng.sample(fam, n)):
+                w.name = nm_
+                pool_w[:] = [x for x in pool_w if x is not w]
     if cls == 'plain' and rng.random() < 0.7:
         cands = [w for w in named + inner]
         targets = rng.sample(cands, min(len(cands), rng.randint(1, 8)))
